@@ -2487,10 +2487,13 @@ static bool upipe_h265f_find(struct upipe *upipe,
             }
             upipe_h265f->au_size++;
 
-            /* retrieve the octet preceding the start code, if it exists */
+            /* retrieve the octet preceding the start code, if it exists (a
+             * start code at the very beginning of the stream has none: a
+             * negative offset would count from the end of the block) */
             if (p <= buffer + 6 &&
-                !ubase_check(uref_block_extract(upipe_h265f->next_uref,
-                                    upipe_h265f->au_size - 6, 1, prev_p)))
+                (upipe_h265f->au_size < 6 ||
+                 !ubase_check(uref_block_extract(upipe_h265f->next_uref,
+                                    upipe_h265f->au_size - 6, 1, prev_p))))
                 *prev_p = 0xff;
             return true;
         }
